@@ -1,4 +1,4 @@
-from lib import std_flow
+from props.c07 import robust_flow
 
 
 def run(ctx):
@@ -10,5 +10,4 @@ def run(ctx):
         "taken from the implementation; the theorems only use that it is a permutation",
         "uuids consumed by reverted transactions are handed out again (the harness resets its host's counter), as on a chain",
     ]
-    std_flow(ctx, "c49", coq_targets=["C49/Cases"],
-             mismatch_key=lambda d: "model-mismatch:history")
+    robust_flow(ctx, "c49", lambda d: "model-mismatch:history", coq_targets=["C49/Cases"])
